@@ -16,9 +16,9 @@ SPEC = dict(
     test="TestVerifC20",
     level="exploration",
     workers=16,
-    # sized in CPU time: quick needs about 12 CPU-minutes (45..60 s wall on 16 free cores); the deadline only
+    # sized in CPU time: quick needs about 10 CPU-minutes (under 1 min wall on 16 free cores); the deadline only
     # protects against a heavily shared machine and ends the run with exhaustive:false, never with a verdict
-    deadline={"quick": 600, "thorough": 3600},
+    deadline={"quick": 900, "thorough": 3600},
     rule="a case = (sorted key record, fragment layout, condition tree, time range); it is non-trivial iff the real "
          "index reader pruned at least one fragment/block AND at least one row satisfies the condition (brute force). "
          "distinct_nontrivial = number of such cases (each case is generated exactly once by the odometer; reader "
@@ -60,12 +60,23 @@ def run(tier, replay):
         shutil.rmtree(scratch, ignore_errors=True)
 
 
-CLAIMED = False
+CLAIMED = True
 MANIFEST = dict(
     level="exploration",
     engine="enumx",
-    technique="bounded exhaustive enumeration (odometer) of sorted key records x fragment layouts x condition trees x reader "
-              "settings on the real index writer/readers, brute-force row oracle (soundness of pruning only)",
-    text="todo",
-    note="todo",
+    technique="bounded exhaustive enumeration (odometer) of sorted key records x fragment layouts x condition trees x time "
+              "ranges x reader settings on the real index writer and readers (PKIndexWriterImpl.Build, NewKeyCondition, "
+              "PKIndexReaderImpl.Scan, bloom-filter writer/reader, min-max and set readers) with a brute-force row oracle",
+    text="Every record of <= 5 (thorough 6) rows over 1-3 key columns (string {A,C,D}, integer {1,2}/{1,2,4}, float, boolean, "
+         "time; nulls in the order the writer's sorter produces them), every fragment size 1-3 (thorough: every composition), "
+         "every condition tree of <= 3 atoms over key and non-key columns with = != < <= > >= MATCHPHRASE (literals on, between "
+         "and outside the domain), AND/OR, with and without time bounds, binary and exclusion search, 5 coarse-index settings: "
+         "each fragment that holds a row satisfying the condition (brute force, comparison with null is false) must be inside "
+         "the ranges returned by Scan; the same for bloom-filter / min-max / set skip-index readers' MayBeInFragment per block. "
+         "Soundness of pruning only (over-reading is allowed). Exhaustive within these bounds.",
+    note="Trusts: Go runtime; the harness' row evaluator; the order model of the writer's sorter (self-checked against "
+         "record.SortHelper at start-up); tokenizer.SimpleTokenFinder as the meaning of MATCHPHRASE. min-max and set have no "
+         "writer in the repository (index laid out as the reader indexes it). Known findings: right-bound mark, null key as "
+         "+infinity, in-place rewrite of the cached index record (fixes proposed), null boolean key tie, set reader stub. "
+         "Errors/panics of a reader are counted, not reported.",
 )
